@@ -801,3 +801,153 @@ func hasAnnotationBegin(m *scanfsm.Machine, st string) bool {
 	}
 	return walk(st, 0)
 }
+
+// ruleUnquote: a parameter lexeme's value is unquoted before it is interpreted.
+func (c *Ctx) ruleUnquote() {
+	r := c.R
+	r.Rule("C08-UNQUOTE", "every consumer of the value of a Parameter lexeme applies Unquote() FIRST: in a call chain rooted at <parameter lexeme>.Value() the next method is Unquote, or the value is handed to a function whose first statement unquotes it (directive.AppendParameter). Parameter lexemes are the elements of Scanner.lastDirectiveParameters, the lexeme of core.processParameter and the file-name lexeme of getIncludedFilePath", 4)
+	n := 0
+	check := func(f *Fn, isParamLexeme func(e ast.Expr) bool) {
+		pk := f.Pkg
+		inspectWithStack(f.Decl.Body, func(nd ast.Node, stack []ast.Node) bool {
+			call, ok := nd.(*ast.CallExpr)
+			if !ok || len(call.Args) != 0 {
+				return true
+			}
+			sel, ok := ast.Unparen(call.Fun).(*ast.SelectorExpr)
+			if !ok || sel.Sel.Name != "Value" || !isParamLexeme(sel.X) {
+				return true
+			}
+			if !strings.HasSuffix(namedType(pk.TypesInfo.TypeOf(sel.X)), "scanner.Lexeme") {
+				return true
+			}
+			n++
+			key := fmt.Sprintf("%s | %s.Value()", f.Name(), exprString(sel.X))
+			parent := stack[len(stack)-1]
+			switch p := parent.(type) {
+			case *ast.SelectorExpr:
+				if p.Sel.Name == "Unquote" {
+					r.Ok("C08-UNQUOTE", key, "followed by Unquote()", c.pos(call.Pos()))
+				} else {
+					r.Bad("C08-UNQUOTE", key, "the parameter value is interpreted ("+p.Sel.Name+") before it is unquoted: a quoted parameter is treated differently from the bare one", c.pos(call.Pos()))
+				}
+			case *ast.CallExpr:
+				// passed to a function: its first statement must unquote the parameter
+				cal := callee(pk, p)
+				g := c.fnOf(cal)
+				okFirst := false
+				if g != nil && len(g.Decl.Body.List) > 0 {
+					if as, ok := g.Decl.Body.List[0].(*ast.AssignStmt); ok && len(as.Rhs) == 1 {
+						if strings.HasSuffix(exprString(as.Rhs[0]), ".Unquote()") {
+							okFirst = true
+						}
+					}
+				}
+				if okFirst {
+					r.Ok("C08-UNQUOTE", key, "handed to "+cal.Name()+", whose first statement unquotes it", c.pos(call.Pos()))
+				} else {
+					r.Bad("C08-UNQUOTE", key, "the raw parameter value is passed on without being unquoted", c.pos(call.Pos()))
+				}
+			default:
+				r.Bad("C08-UNQUOTE", key, "the raw parameter value is used without Unquote()", c.pos(call.Pos()))
+			}
+			return true
+		})
+	}
+	// scanner: range variables over lastDirectiveParameters
+	var ldp *types.Var
+	if tn := c.P.LookupType("scanner", "Scanner"); tn != nil {
+		st := tn.Type().Underlying().(*types.Struct)
+		for i := 0; i < st.NumFields(); i++ {
+			if sl, ok := st.Field(i).Type().Underlying().(*types.Slice); ok && strings.HasSuffix(namedType(sl.Elem()), "scanner.Lexeme") {
+				ldp = st.Field(i)
+			}
+		}
+	}
+	// parameter-lexeme variables per function, propagated to callees that receive them as arguments
+	pv := map[*types.Func]map[types.Object]bool{}
+	mark := func(f *Fn, o types.Object) bool {
+		if o == nil {
+			return false
+		}
+		if pv[f.Obj] == nil {
+			pv[f.Obj] = map[types.Object]bool{}
+		}
+		if pv[f.Obj][o] {
+			return false
+		}
+		pv[f.Obj][o] = true
+		return true
+	}
+	fns := c.libFns()
+	for _, f := range fns {
+		pk := f.Pkg
+		ast.Inspect(f.Decl.Body, func(nd ast.Node) bool {
+			if rs, ok := nd.(*ast.RangeStmt); ok && ldp != nil && fieldSel(pk, rs.X) == ldp {
+				if id, ok := rs.Value.(*ast.Ident); ok {
+					mark(f, pk.TypesInfo.Defs[id])
+				}
+			}
+			return true
+		})
+		if f.Name() == "core.(*JApiCore).processParameter" || f.Name() == "core.(*JApiCore).getIncludedFilePath" {
+			name := map[string]string{"core.(*JApiCore).processParameter": "lexeme", "core.(*JApiCore).getIncludedFilePath": "parameter"}[f.Name()]
+			ast.Inspect(f.Decl, func(nd ast.Node) bool {
+				if id, ok := nd.(*ast.Ident); ok && id.Name == name {
+					mark(f, pk.TypesInfo.Defs[id])
+				}
+				return true
+			})
+		}
+	}
+	for changed := true; changed; {
+		changed = false
+		for _, f := range fns {
+			vars := pv[f.Obj]
+			if len(vars) == 0 {
+				continue
+			}
+			pk := f.Pkg
+			ast.Inspect(f.Decl.Body, func(nd ast.Node) bool {
+				call, ok := nd.(*ast.CallExpr)
+				if !ok {
+					return true
+				}
+				g := c.fnOf(callee(pk, call))
+				if g == nil {
+					return true
+				}
+				for i, a := range call.Args {
+					id, ok := ast.Unparen(a).(*ast.Ident)
+					if !ok || !vars[pk.TypesInfo.Uses[id]] {
+						continue
+					}
+					j := 0
+					for _, fl := range g.Decl.Type.Params.List {
+						for _, nm := range fl.Names {
+							if j == i && mark(g, g.Pkg.TypesInfo.Defs[nm]) {
+								changed = true
+							}
+							j++
+						}
+					}
+				}
+				return true
+			})
+		}
+	}
+	for _, f := range fns {
+		vars := pv[f.Obj]
+		if len(vars) == 0 {
+			continue
+		}
+		pk := f.Pkg
+		check(f, func(e ast.Expr) bool {
+			id, ok := ast.Unparen(e).(*ast.Ident)
+			return ok && vars[pk.TypesInfo.Uses[id]]
+		})
+	}
+	if n == 0 {
+		r.Undecided("C08-UNQUOTE", "sites", "no consumer of a parameter lexeme value found", "")
+	}
+}
